@@ -571,7 +571,9 @@ Hbitseek(int32 bitid, int32 byte_offset, int bit_offset)
         read_size = MIN((bitfile_rec->max_offset - seek_pos), BITBUF_SIZE);
         if ((n = Hread(bitfile_rec->acc_id, read_size, bitfile_rec->bytea)) == FAIL)
             HRETURN_ERROR(DFE_READERROR, FAIL); /* EOF? somebody pulled the rug out from under us! */
-        bitfile_rec->bytez        = n + (bitfile_rec->bytep = bitfile_rec->bytea);
+        bitfile_rec->bytep = bitfile_rec->bytea;
+        /* when reading, the buffer ends with the bytes read; when writing it is the whole block */
+        bitfile_rec->bytez        = bitfile_rec->bytea + (bitfile_rec->mode == 'w' ? BITBUF_SIZE : n);
         bitfile_rec->buf_read     = n; /* keep track of the number of bytes in buffer */
         bitfile_rec->block_offset = seek_pos;
         if (bitfile_rec->mode == 'w') /* if writing, return the file offset to it's original position */
